@@ -182,6 +182,10 @@ func zzU9() []zzTxDef { // two conflicting unconfirmed spenders of one credit: B
 // seen unconfirmed (event codes of pick: see(t)=t, mineNew(t)=n+t).
 func zzU9Preamble() []int { return []int{4 + 0, 1, 2} }
 
+// zzU4Preamble: the coinbase confirmed, its spender S seen unconfirmed, then
+// the coinbase's block disconnected (the coinbase and S are forgotten).
+func zzU4Preamble() []int { return []int{3 + 0, 1, 4*3 + 0} }
+
 func zzU1z() []zzTxDef { // U1 whose first transaction may carry zero-value credits
 	d := zzU1()
 	d[0].zeroOK = true
